@@ -313,11 +313,12 @@ pub fn effective(q: &Query, lang: Lang, r: &Rules) -> Eff {
             if s == 0 && r.on(Rule::RangeScanStrict) && range_shape(p, true).is_some() {
                 e.range0 = range_shape(p, true);
                 e.range_pred = Some(p.clone());
-            } else if r.on(Rule::StackedFilter) {
-                // the WHERE filter is an operator of its own directly above position s
-                e.stacks[s].push(NF::Pred(p.clone()));
             } else {
-                e.pred = Some(p.clone());
+                // the WHERE filter is an operator of its own directly above position s (a fact of
+                // the plan, whatever rules are on: it breaks an expand chain there and restricts
+                // what flows into the expands above it; with conjunctive filter semantics the
+                // result is the same as evaluating it on complete bindings)
+                e.stacks[s].push(NF::Pred(p.clone()));
             }
         }
     } else {
